@@ -419,12 +419,16 @@ func NewDecoder(n int, sep string, r io.Reader) (sts.PayloadDecoder, error) {
 	}
 	pr, pw := io.Pipe()
 	go func() {
+		var err error
 		if n > 0 {
-			_, _ = io.CopyN(pw, r, int64(n))
+			_, err = io.CopyN(pw, r, int64(n))
 		} else {
 			// When no length provided, assume the meta is the entire payload
-			_, _ = io.Copy(pw, r)
+			_, err = io.Copy(pw, r)
 		}
+		// Without this a header that ends early (truncated request, wrong
+		// length) leaves the JSON decoder below waiting on the pipe forever
+		_ = pw.CloseWithError(err)
 	}()
 	jr := json.NewDecoder(pr)
 	err = jr.Decode(&binReader.meta)
